@@ -18,10 +18,24 @@ import Glom.Generated.C06Facts
   and every evaluation reads what the value-level reference gives, whatever
   earlier evaluations wrote.
 
-  *partial*: the "inputs untouched" half of the property is carried by the
-  interpreter model by construction (its values are immutable) and by the
-  correspondence (deep snapshots before/after on the real objects); it is not a
-  heap-level frame theorem.
+  Registrations: the concrete registry `TReg` has `exact=True` registrations and virtual (ABC)
+  bases; `c06_register_candidate_wins`, `c06_register_abc_wins`, `c06_register_exact_self`,
+  `c06_register_exact_not_inherited` and the lookup–register–lookup histories
+  `c06_register_exact_history`, `c06_register_abc_history`.
+
+  "Inputs untouched" on a heap with object identity (`Model/C06Heap.lean`): `c06_tarith_frame`,
+  `c06_tarith_cells`, `c06_tarith_fresh`, `c06_spec_frame`, `c06_spec_fresh`, `c06_calls_frame`,
+  `c06_view_preserved`, `c06_outcome_heap_independent`, `c06_repeat_same`, `c06_arith_checker`;
+  facts obligation `c06_facts_arith_binary`.
+
+  *partial*: the frame theorem covers T expressions (item steps and all arithmetic operators),
+  `arg_val`, dict / list / tuple specs, `Coalesce` and `Vars`; for the other constructs (user
+  callables, Call / Invoke, Fold / Group accumulators, Match, Iter, S-rooted expressions) "inputs
+  untouched" is carried by the correspondence (deep snapshots, structure and identity, before /
+  after on the real objects).  That a *repeated* evaluation returns an equal value is proved for
+  the caches (`c06_history`) and, for the constructs of the heap model, as invariance of the
+  evaluation under relocation of the objects it creates (`c06_repeat_same`); the two models are
+  not composed into one (a heap-model call makes no cache query).
 -/
 namespace Glom.Props.C06
 open Glom.C06
@@ -484,6 +498,30 @@ theorem c06_view_preserved (calls : List (Sp × Val)) (h : Heap) (fuel : Nat) (v
   view6_ext (runCalls_ext calls h) fuel v p hv
 
 open Glom in
+/-- **The outcome does not depend on what else the heap holds.**  For a heap without dangling
+    references, a target in it and a spec whose own objects are in it: evaluating the spec in that
+    heap, or in the same heap followed by any number of further objects (what earlier calls
+    created), gives the same outcome as far as anyone can observe — the tree the value denotes, or
+    the error. -/
+theorem c06_outcome_heap_independent (sp : Sp) (tgt : Val) (h g : Heap) (fuel : Nat)
+    (hh : heapClosed h = true) (ht : Val.closed6 h.length tgt = true) (hs : sp.closed h.length = true) :
+    outView fuel (evalAuto sp tgt (h ++ g)) = outView fuel (evalAuto sp tgt h) :=
+  outView_more sp tgt h g fuel hh ht hs
+
+open Glom in
+/-- **Repeating a call, or making it after any other calls, never changes its outcome** (heap
+    level): whatever calls were made before — the same spec on the same target, other specs, other
+    targets, calls that raised — the call's outcome is the one it has when made first.  Together
+    with `c06_calls_frame` (the inputs are what they were) this is the second half of C06 for the
+    constructs of the heap model, with no cache involved at all. -/
+theorem c06_repeat_same (sp : Sp) (tgt : Val) (h : Heap) (calls : List (Sp × Val)) (fuel : Nat)
+    (hh : heapClosed h = true) (ht : Val.closed6 h.length tgt = true) (hs : sp.closed h.length = true) :
+    outView fuel (evalAuto sp tgt (runCalls calls h)) = outView fuel (evalAuto sp tgt h) := by
+  obtain ⟨g, hg⟩ := runCalls_ext calls h
+  rw [hg]
+  exact outView_more sp tgt h g fuel hh ht hs
+
+open Glom in
 /-- **The checker holds on the model**: for every spec, target and heap the observation of the
     model's evaluation satisfies `checkArith` (the decidable form of the two statements above that
     the driver evaluates on the implementation's observation). -/
@@ -642,6 +680,38 @@ example : (evalAuto (.coalesce (.cons (.t (.cons .item (.lit (.str "zz")) .nil))
 open Glom in
 /-- `mustBeNew` is needed for the second half: `T['tags']` alone returns the target's own set -/
 example : (evalAuto (.t (.cons .item (.lit (.str "tags")) .nil)) (.ref 0) h0).1 = .ok (.ref 1) := by decide
+
+/-! repeated evaluation: `T['tags'] | {'b'}` twice — two different new sets, the same tree; the
+    hypotheses of `c06_repeat_same` hold for `h0`; without "the spec's own objects existed"
+    (`Sp.closed`) the conclusion fails: a literal naming address 5 denotes nothing in `h0` and
+    whatever object an earlier call happened to create there afterwards -/
+
+open Glom in
+example : heapClosed h0 = true ∧ Val.closed6 h0.length (.ref 0) = true ∧ (Sp.t orSpec).closed h0.length = true := by
+  decide
+
+open Glom in
+/-- the second evaluation builds another new set (address 6, not 5) with the same content; the
+    target's set (address 1) is still what it was -/
+example : (evalAuto (.t orSpec) (.ref 0) (runCalls [(.t orSpec, .ref 0)] h0)).1 = .ok (.ref 6) ∧
+    (evalAuto (.t orSpec) (.ref 0) (runCalls [(.t orSpec, .ref 0)] h0)).2[6]? = some (.set "set" [.str "a", .str "b"]) ∧
+    (evalAuto (.t orSpec) (.ref 0) h0).2[5]? = some (.set "set" [.str "a", .str "b"]) ∧
+    (evalAuto (.t orSpec) (.ref 0) (runCalls [(.t orSpec, .ref 0)] h0)).2[1]? = some (.set "set" [.str "a"]) := by
+  decide
+
+open Glom in
+private def danglingSpec : Sp := .t (.cons .item (.lit (.str "xs")) (.cons (.bin .add) (.lit (.ref 5)) .nil))
+
+open Glom in
+example : danglingSpec.closed h0.length = false ∧
+    outView 5 (evalAuto danglingSpec (.ref 0) (h0 ++ [.list "list" [.int 9]])) ≠
+      outView 5 (evalAuto danglingSpec (.ref 0) h0) := by
+  refine ⟨by decide, ?_⟩
+  have h1 : (evalAuto danglingSpec (.ref 0) h0).1 = .error .unsupported := by decide
+  have h2 : (evalAuto danglingSpec (.ref 0) (h0 ++ [.list "list" [.int 9]])).1 = .ok (.ref 6) := by decide
+  unfold outView
+  rw [h1, h2]
+  simp [Except.map]
 
 /-! registry: `exact=True` registers the type itself and nothing else; an ABC registered after a
     lookup of its virtual subclass; without "not exact" the base registration is not inherited -/
